@@ -259,8 +259,19 @@ def c16(tier):
             chk.add_report(rep, f"enum-{t}:{prof}")
         else:
             chk.compile_violation("compile", f"enum-{t}", prof, diag, len(eds))
+    # builder chains and constants in both profiles (no digests there: both runs must agree with the reference)
+    bstructs = sets.builder_structs('quick')
+    cstructs = sets.consts_set('quick')
+    for prof in (('checked', 'fast') if tier == 'thorough' else ()):
+        wsb = build_set(chk, "builder-c16", list(bstructs), prof)
+        if wsb:
+            chk.add_report(B.run(wsb, prof, 'builder', ['--full-w', 8, '--cap', 65536], out_name=f"report-C16-builder-{prof}.json"), f"builder:{prof}")
+        wsc = build_set(chk, "consts-c16", list(cstructs), prof)
+        if wsc:
+            chk.add_report(B.run(wsc, prof, 'consts', ['--full-n', 16], out_name=f"report-C16-consts-{prof}.json"), f"consts:{prof}")
     chk.bounds.append("the machine sets of C01-C05, C07, C08 built twice (checked = opt 0 + overflow checks + debug assertions; fast = opt 3 without) and swept identically; "
-                      "no Panicked observation except out-of-range indices; per-machine digests over the ordered observation stream equal across profiles")
+                      "no Panicked observation except out-of-range indices; per-machine digests over the ordered observation stream equal across profiles; "
+                      + ("the builder layouts of C13 and the constant/round-trip layouts of C06 are run in both profiles against the reference as well" if tier == 'thorough' else ""))
     return chk.finish()
 
 
